@@ -6,7 +6,7 @@
    any number of items, any id distribution; page limits and fault patterns are universally quantified in the
    paging theorem (C17_paging_exact: any limit >= 1, any minimum, any LoadRange fault oracle, any callback that only
    deletes ids it has been shown).  The four defects found here (S9 at both loaders, S10) are fixed in /repo
-   (b5d4f59, e76651c); the statements below are the full-strength ones about the repaired code.  Namespaces are id-sorted association lists (zero-padded keys: lemma
+   (fce77ba, 8a5de01); the statements below are the full-strength ones about the repaired code.  Namespaces are id-sorted association lists (zero-padded keys: lemma
    C17_pad_covers_uint64); LoadRange is end-exclusive (obligations src_*_LoadRange_ok). *)
 From Coq Require Import String.
 From PDV Require Import lib.Base lib.C17_Map gen.Gen_C17 model.C17_Storage
@@ -51,7 +51,7 @@ Proof. exact region_limit_chain. Qed.
 (* 2. stores                                                                                  *)
 (* ------------------------------------------------------------------------------------------ *)
 (* Every store saved and not deleted is returned exactly once by LoadStores, with the weights last saved (default
-   1.0), for every history and every id in [0, 2^64) — the maximum id included (b5d4f59; before that fix the statement
+   1.0), for every history and every id in [0, 2^64) — the maximum id included (fce77ba; before that fix the statement
    was refuted by [OSaveStore (2^64-1) 7], now the Example C17_max_id_is_loaded). *)
 Theorem C17_load_returns_each_saved_once :
   forall ops, ops_ok ops ->
@@ -83,7 +83,7 @@ Proof. exact load_regions_direct_pf. Qed.
 (* 4. regions, RegionStorage backend: the write-back batch                                    *)
 (* ------------------------------------------------------------------------------------------ *)
 (* Once Flush has returned, leveldb holds exactly what the history saved and did not delete, and a load returns it
-   (e76651c: a delete also drops the pending save; before that fix the statement was refuted by save 5, delete 5,
+   (8a5de01: a delete also drops the pending save; before that fix the statement was refuted by save 5, delete 5,
    flush — now the Example C17_delete_drops_pending_save). *)
 Theorem C17_flush_makes_durable :
   forall ops, ops_ok ops -> plain_ops ops = true ->
